@@ -212,6 +212,29 @@ static void run(Harness &H) {
       if (sum != Poly{mpq_class(1)}) { fprintf(stderr, "reference self-check failed\n"); exit(3); }
     }
   }
+  // long knot vectors (size as an alphabet): 20 and 45 knots with a repeating multiplicity pattern
+  for (size_t m : std::vector<size_t>{20, 45}) {
+    for (int patt = 0; patt < 3; patt++) {
+      Knots K;
+      mpq_class x = mq(-3);
+      size_t cnt = 0, gi = 0;
+      while (cnt < m) {
+        size_t mu = patt == 0 ? 1 : patt == 1 ? 1 + (gi % 3 == 1) : 1 + (gi % 4);
+        mu = std::min(mu, m - cnt);
+        K.grid.push_back(x);
+        K.mult.push_back(mu);
+        for (size_t r = 0; r < mu; r++) K.t.push_back(x);
+        cnt += mu;
+        x += (gi % 2 ? mq(1, 2) : mq(3, 4)) + mq((long)(gi % 3), 5);
+        gi++;
+      }
+      K.desc = "long;m=" + std::to_string(m) + ";pattern" + std::to_string(patt);
+      one<1>(H, K);
+      one<2>(H, K);
+      one<3>(H, K);
+      if (H.thorough()) { one<4>(H, K); one<5>(H, K); }
+    }
+  }
   std::vector<mpq_class> gaps = H.thorough() ? std::vector<mpq_class>{mq(1), mq(1, 2), mq(3)} : std::vector<mpq_class>{mq(1), mq(1, 2)};
   std::vector<mpq_class> offs = {mq(0), mq(-7, 2), mq(100)};
   size_t M = H.thorough() ? 9 : 7;
